@@ -81,7 +81,8 @@ Definition s_bf_sextract (base off cnt : Z) : result Z :=
        Done (if Z.testbit v (cnt - 1) then wrap (v - Z.shiftl 1 cnt) else v).
 Definition s_bf_insert (base ins off cnt : Z) : result Z :=
   if off + cnt >? 32 then ub "OpBitFieldInsert: offset + count > 32"
-  else let mask := Z.shiftl (Z.ones cnt) off in
+  else if cnt =? 0 then Done base
+  else let mask := wrap (Z.shiftl (Z.ones cnt) off) in         (* bits off .. off+cnt-1 *)
        Done (Z.lor (Z.land base (ALL_ONES - mask)) (Z.land (wrap (Z.shiftl ins off)) mask)).
 
 (* ------------------------------------------------------------------ *)
